@@ -23,18 +23,24 @@ type space struct {
 	NamLen  int
 }
 
+// pieces: whole classes (plain, negated, range, with a bracket or a star inside) and single pattern characters as
+// letters of the "class-sequences" space: patterns with several classes are longer than the character-wise spaces reach
+var pieces = []string{"[a]", "[^a]", "[ab]", "[^b]", "[a-b]", "[^a-b]", "[*]", "[\\]]", "a", "b", "*", "?", "/"}
+
 func spaces(thorough bool) []space {
 	if thorough {
 		return []space{
 			{"ascii", strings.Split(`* ? [ ] ^ - \ a / b`, " "), 6, strings.Split("a b / -", " "), 5},
 			{"meta-names", strings.Split(`* ? [ ] ^ - \ a /`, " "), 6, strings.Split(`a b / - ^ ] \ * ? [`, " "), 3},
-			{"utf8", strings.Split("* ? [ ] ^ - \\ é € \ufffd", " "), 6, strings.Split("é € a \ufffd", " "), 3},
+			{"utf8", strings.Split("* ? [ ] ^ - \\ é € \ufffd", " "), 6, strings.Split("é € a \ufffd \U0001F600", " "), 3},
+			{"class-sequences", pieces, 4, strings.Split("a b c / -", " "), 4},
 		}
 	}
 	return []space{
 		{"ascii", strings.Split(`* ? [ ] ^ - \ a /`, " "), 5, strings.Split("a b / -", " "), 4},
 		{"meta-names", strings.Split(`* ? [ ] ^ - \ a`, " "), 5, strings.Split(`a b / - ^ ] \ * ? [`, " "), 3},
-		{"utf8", strings.Split("* ? [ ] ^ - \\ é € \ufffd", " "), 5, strings.Split("é € a \ufffd", " "), 3},
+		{"utf8", strings.Split("* ? [ ] ^ - \\ é € \ufffd", " "), 5, strings.Split("é € a \ufffd \U0001F600", " "), 3},
+		{"class-sequences", pieces, 3, strings.Split("a b c / -", " "), 4},
 	}
 }
 
